@@ -49,6 +49,8 @@ const (
 
 type c15x struct {
 	c   *eng.Ctx
+	// ruleAs renames rule ids when a rule of this file is re-used by another property
+	ruleAs map[string]string
 	sl  *eng.Slicer
 	sa  *eng.Slicer
 	ord map[string]int
@@ -140,12 +142,20 @@ func (x *c15x) nth(fn *ssa.Function, base string) string {
 	return fmt.Sprintf("%s#%d", base, x.ord[k])
 }
 
+// rid maps a rule id of this file to the id it is reported under (C03 re-uses R4 as its R10).
+func (x *c15x) rid(r string) string {
+	if n, ok := x.ruleAs[r]; ok {
+		return n
+	}
+	return r
+}
+
 // check records an obligation; the explanation is attached only when it is violated.
 func (x *c15x) check(rule string, fn *ssa.Function, construct string, pos token.Pos, ok bool, why string) bool {
 	if ok {
 		why = ""
 	}
-	return x.c.Check(rule, fn, construct, pos, ok, why)
+	return x.c.Check(x.rid(rule), fn, construct, pos, ok, why)
 }
 
 func c15IsContext(t types.Type) bool { return eng.TypeName(t) == "context.Context" }
@@ -1462,7 +1472,7 @@ func c15R4(x *c15x) {
 	if len(own) > 0 {
 		ctxParam = nil
 	} else if ctxParam == nil {
-		c.Fail("R4", start, "probe goroutine loops select on ctx.Done()", start.Pos(), "startGatewayHealthCheck has no context parameter")
+		c.Fail(x.rid("R4"), start, "probe goroutine loops select on ctx.Done()", start.Pos(), "startGatewayHealthCheck has no context parameter")
 		return
 	}
 	isCtxDone := func(ch ssa.Value) bool {
@@ -1493,17 +1503,17 @@ func c15R4(x *c15x) {
 		f := c.W.FuncOfValue(g.Call.Value)
 		construct := x.nth(start, "probe goroutine loops select on ctx.Done()")
 		if f == nil || f.Blocks == nil {
-			c.Undecided("R4", start, construct, g.Pos(), "goroutine body not resolved")
+			c.Undecided(x.rid("R4"), start, construct, g.Pos(), "goroutine body not resolved")
 			return
 		}
 		n++
 		x.bindGo(g, f)
 		ok2, why, sels := c15LoopsWatch(f, isCtxDone)
 		goroutines[f] = sels
-		x.check("R4", f, construct, g.Pos(), ok2, why)
+		x.check(x.rid("R4"), f, construct, g.Pos(), ok2, why)
 	})
 	if n == 0 {
-		c.Fail("R4", start, "probe goroutine loops select on ctx.Done()", start.Pos(), "startGatewayHealthCheck starts no goroutine")
+		c.Fail(x.rid("R4"), start, "probe goroutine loops select on ctx.Done()", start.Pos(), "startGatewayHealthCheck starts no goroutine")
 	}
 	// the probe function is invoked only behind a ctx-watching select of such a goroutine
 	nProbe := 0
@@ -1526,12 +1536,12 @@ func c15R4(x *c15x) {
 					}
 				}
 			}
-			x.check("R4", fn, x.nth(fn, "probe invoked only behind a select that watches ctx.Done()"), ci.Pos(), isG && behind,
+			x.check(x.rid("R4"), fn, x.nth(fn, "probe invoked only behind a select that watches ctx.Done()"), ci.Pos(), isG && behind,
 				"healthCheckFun is called outside the cancellable health-check loop: the endpoint keeps being probed after it was removed or its cluster deleted")
 		}
 	}
 	if nProbe == 0 {
-		c.Fail("R4", nil, "probe invoked only behind a select that watches ctx.Done()", 0, "no invocation of healthCheckFun found")
+		c.Fail(x.rid("R4"), nil, "probe invoked only behind a select that watches ctx.Done()", 0, "no invocation of healthCheckFun found")
 	}
 	c.Note("C15.R4: the ticker goroutine's `e.healthCheckCh <- struct{}{}` is a blocking send outside the select; after cancellation it can block forever if the channel is full (goroutine leak, not probing) — outside the property's statement")
 }
